@@ -135,7 +135,7 @@ where
     /// The scheme_version from MediaReference is used to select the correct encryption scheme.
     ///
     /// Looks up the encryption epoch from the stored message's IMETA tag (via the
-    /// `x <hash>` field), then decrypts with that epoch's exporter secret. This is
+    /// `n <nonce>` field), then decrypts with that epoch's exporter secret. This is
     /// O(1) regardless of how many epoch advancements have occurred.
     pub fn decrypt_from_download(
         &self,
@@ -194,14 +194,18 @@ where
     /// Try to decrypt media using the epoch stored alongside the message's IMETA tag.
     ///
     /// Looks up the epoch from the `messages` table by searching for the IMETA tag's
-    /// `x <hex_hash>` field, then attempts decryption with that epoch's exporter secret.
+    /// `n <hex_nonce>` field (unique per upload), then attempts decryption with that epoch's
+    /// exporter secret.
     /// This avoids brute-forcing all historical epochs in the common case.
     fn try_decrypt_with_epoch_hint(
         &self,
         encrypted_data: &[u8],
         reference: &MediaReference,
     ) -> Result<Vec<u8>, EncryptedMediaError> {
-        let search_term = format!("x {}", hex::encode(reference.original_hash));
+        // Look the announcing message up by the upload's nonce, which is unique per upload.
+        // The content hash is not: the same file announced in two epochs would make the
+        // lookup return either epoch, and one of the two uploads could never be decrypted.
+        let search_term = format!("n {}", hex::encode(reference.nonce));
 
         let epoch = self
             .mdk
